@@ -83,6 +83,8 @@ MARKER_PROPS = {
     "VF:wrapped.region_to_region": ["C14", "C20"],
     "VF:cmp.": ["C15"],
     "VF:intoowned.slice.region_to_region": ["C14", "C20"],
+    "VF:intoowned.slice.region_to_region_index": ["C20"],
+    "VF:intoowned.cip": ["C14", "C20", "C12"],
     "VF:intoowned.columns.region_to_region": ["C14", "C20"],
     "VF:intoowned.columns.region_to_region_index": ["C12"],
     "VF:intoowned.nested.region_to_region": ["C14", "C20"],
